@@ -44,14 +44,14 @@ def plan(tier, seed):
                 continue
             cases.append(dict(lane='mixture', kind=kind, cls='gauss', K=K, N=N, D=D, lead=lead, init=pick(['dirichlet:1', 'blur:0.3', 'onehot', 'num_classes']),
                               iters=iters, opts=o, gain=pick(GK), decades=float(pick([100, 100, 60, 30])), stream=stream, layout=pick(['c', 'c', 'tview', 'f']),
-                              e_dtype='f32' if (kind in models.INTEGRATION and stream == 'spatial' and rng.uniform() < 0.3) else 'f64', rs=[seed, 4, i]))
+                              e_dtype='f32' if (kind in models.INTEGRATION and stream == 'spatial' and rng.uniform() < 0.3) else 'f64', sparse=bool(rng.uniform() < 0.25), rs=[seed, 4, i]))
             i += 1
     m = S(tier, 25, 250)
     for fam in ('cacg', 'watson', 'bingham', 'vmf'):
         for r in range(m if fam != 'bingham' else max(5, m // 4)):
             D = int(rng.integers(2, 9)) if fam != 'bingham' else int(rng.integers(2, 6))
-            cases.append(dict(lane='dist', fam=fam, D=D, N=int(rng.integers(D + 2, 40)), lead=pick([[], [2], [2, 3]]) if fam != 'bingham' else pick([[], [2]]),
-                              gain=pick(GK), decades=float(pick([100, 100, 60])), saliency=bool(rng.integers(0, 2)), rs=[seed, 5, i]))
+            cases.append(dict(lane='dist', fam=fam, D=D, N=int(rng.integers(D + 2, 40)) if (fam in ('bingham', 'cacg') or rng.uniform() > 0.15) else int(pick([1, 1, 2])), lead=pick([[], [2], [2, 3]]) if fam != 'bingham' else pick([[], [2]]),
+                              gain=pick(GK), decades=float(pick([100, 100, 60])), saliency=bool(rng.integers(0, 2)), sparse=bool(rng.uniform() < 0.25), rs=[seed, 5, i]))
             i += 1
     return cases
 
@@ -66,7 +66,20 @@ def near_one(rng, shape, real_positive):
     return mag if real_positive else mag * np.exp(2j * np.pi * rng.uniform(size=shape))
 
 
+def sparsify(rng, y):
+    """set about a fifth of the entries to exactly zero, keeping at least one non-zero entry per vector (no zero frames)"""
+    y = y.copy()
+    z = rng.uniform(size=y.shape) < 0.2
+    keep = rng.integers(0, y.shape[-1], size=y.shape[:-1])
+    np.put_along_axis(z, keep[..., None], False, axis=-1)
+    y[z] = 0
+    return y
+
+
 def scaled_data(s, case, rng):
+    if case.get('sparse') and case['stream'] == 'spatial':
+        # observation vectors with exactly vanishing components (a muted channel in some frames): still no zero frame
+        s.data = dict(s.data, y=sparsify(rng, s.data['y']))
     d = dict(s.data)
     y = s.data['y']
     if case['gain'] == 'near_one':
@@ -229,6 +242,8 @@ def run_dist(case, R):
     else:
         cov = gen.hpd(rng, D, cond=20.0, lead=lead)
         y = np.einsum('...ab,...nb->...na', np.linalg.cholesky(cov), gen.cnormal(rng, (*lead, N, D)))
+    if case.get('sparse'):
+        y = sparsify(rng, y)
     if case['gain'] == 'near_one':
         y = oracles.unit(y)
         g = near_one(rng, (*lead, N), real)
